@@ -68,6 +68,7 @@ def C12(ctx):
 def C05(ctx):
     u = need_unit(ctx, "slab")
     RS.check_C05(ctx, u)
+    RS2.check_bucket_of_slab(ctx, u)
     if ctx.tier == "thorough":
         u2 = need_unit(ctx, "slab", extra_flags=("-DFRG_SLAB_TRACK_REGIONS",), tag="track")
         RS.check_C05(ctx, u2, config=" [FRG_SLAB_TRACK_REGIONS]")
@@ -138,6 +139,7 @@ def C13(ctx):
     RO.check_forward_once(ctx, u, ["frg::vector", "frg::small_vector"])
     RL.check_intrusive_list(ctx, u)
     RO.check_small_vector_selection(ctx, u)
+    RO.check_capacity_storage_paired(ctx, u)
     RO.check_stale_buffer(ctx, u, ["frg::small_vector"])
     RO.check_grow_then_read_arg(ctx, u, ["frg::vector", "frg::small_vector"])
     RO.check_built_into_kept_storage(ctx, u, ["frg::vector", "frg::small_vector"])
@@ -199,6 +201,7 @@ def C14(ctx):
     u = need_unit(ctx, "hash_map")
     RH.check_C14(ctx, u)
     RH.check_trailing_pointer(ctx, u)
+    RH.check_next_after_relink(ctx, u)
     ctx.rule("O7.no-use-after-release", "a chain node is not accessed after frg::destruct released it (remove() moves the "
              "value out first; the destructor and rehash read `next` first)", 2)
     RO.check_no_use_after_release(ctx, u, [f for f in u.functions if f.owner_cls == "frg::hash_map"])
@@ -267,6 +270,7 @@ def C20(ctx):
     RP.check_positional_fetch(ctx, uf)
     RP.check_float_lengths(ctx, uf)
     RP.check_digits_length(ctx, uf)
+    RP.check_sized_text(ctx, uf)
     RP.check_grouping_cursor(ctx, uf)
     ctx.rule("R.self-recursion", "no parser or helper calls itself on every path", 0)
     RBI.check_self_recursion(ctx, uf, [f for f in uf.functions if f.uq.startswith("frg::")])
@@ -304,6 +308,9 @@ def C17(ctx):
     ctx.rule("W2.tuple-types", "tuple: get<I> result types (const-ness and reference members preserved), tuple_size/"
              "tuple_element, tuple_cat result type order, make_tuple, apply result type — static_asserts evaluated by the compiler", 8)
     RO.check_typelevel(ctx, "W2.tuple-types", "tuple:", 8)
+    ctx.rule("W2.holder-constinit", "a manual_box of static storage duration is constant-initialised (decided by the compiler on a "
+             "constinit declaration of the witness unit)", 1)
+    RO.check_typelevel(ctx, "W2.holder-constinit", "holder:", 1)
     RHO.check_tuple_access(ctx, u)
     RHO.check_returns(ctx, u, [f for f in u.functions if (f.owner_cls or "") in HOLDERS])
     RHO.check_copy_selects_copy(ctx, u)
@@ -332,6 +339,7 @@ def C02(ctx):
     u = need_unit(ctx, "slab")
     RS2.check_C02(ctx, u)
     RS2.check_stale_after_remove(ctx, u)
+    RS2.check_bucket_of_slab(ctx, u)
     RS2.check_counter_balance(ctx, u)
     return ("Structural clauses of C02: null/zero special cases and null tests before any header dereference; copy-then-free "
             "order and provenance of the copy length in realloc's fallback; in-place success only when the size fits; a new slab "
